@@ -2,12 +2,16 @@
    Statements only; proofs in proofs/ClampR.v.  Spread.Clamp is the single polymorphic definition
    Gradient.clamp_gen: its float64 instance is compared bit-for-bit with render/gradient.go (together
    with Gradient.At on thousands of pixels), and these theorems are about its instance over the reals.
-   PARTIAL: the piece-wise linear interpolation itself (Gradient.At locating the range of an offset)
-   is modelled and compared with the implementation, and its premultiplication / end-point facts are
-   proved for the interpolation formula (the interp theorems below), but "At returns the interpolation at the clamped
-   offset" is not yet a theorem about the list-search in grad_at. *)
-From Coq Require Import Reals ZArith Bool.
-From IVG Require Import Gradient ClampR.
+   Gradient.At's core — the range search over the stops and the interpolation — is likewise one polymorphic
+   definition (Gradient.at_core_gen; float64 instance compared on thousands of pixels); over the reals, for
+   strictly increasing stop offsets: the result is the stop-to-stop interpolation in the range containing the
+   offset (at_in_range), the first colour before the first stop, the last colour after the last stop, no
+   colour for a negative offset (spread none), exactly the stop's colour at a stop's offset, and a
+   premultiplied colour between premultiplied stops.  Gradient.At itself is at_core applied to Clamp of the
+   affine image of the pixel centre (by definition, Gradient.grad_at).  Float rounding is not bounded. *)
+From Coq Require Import Reals ZArith Bool List.
+From IVG Require Import SF NumCodec Color Calls Render Gradient ClampR AtR.
+Import ListNotations.
 Local Open Scope R_scope.
 
 (* reflect is a continuous triangle wave of period 2, for every real offset *)
@@ -53,6 +57,37 @@ Print Assumptions trunc_mono.
 Theorem interp_endpoints : forall c0 c1, (1 - 0) * c0 + 0 * c1 = c0 /\ (1 - 1) * c0 + 1 * c1 = c1.
 Proof. exact ClampR.interp_endpoints. Qed.
 Print Assumptions interp_endpoints.
+
+(* ---- Gradient.At over the reals ---- *)
+Theorem at_in_range : forall pre oa ca ob cb post t,
+  incr (pre ++ (oa, ca) :: (ob, cb) :: post) -> 0 <= t -> (match pre with [] => oa <= t | _ => oa < t end) -> t <= ob ->
+  at_core_gen Rat (pre ++ (oa, ca) :: (ob, cb) :: post) t = interpR oa ob t ca cb.
+Proof. exact AtR.at_in_range. Qed.
+Print Assumptions at_in_range.
+
+Theorem at_before_first : forall o0 c0 rest t, 0 <= t -> t < o0 -> at_core_gen Rat ((o0, c0) :: rest) t = c64_of c0.
+Proof. exact AtR.at_before_first. Qed.
+Print Assumptions at_before_first.
+
+Theorem at_after_last : forall o0 c0 rest t, 0 <= t -> Forall (fun s => fst s < t) ((o0, c0) :: rest) ->
+  at_core_gen Rat ((o0, c0) :: rest) t = c64_of (snd (List.last ((o0, c0) :: rest) (o0, c0))).
+Proof. exact AtR.at_after_last. Qed.
+Print Assumptions at_after_last.
+
+Theorem at_negative : forall stops t, t < 0 -> at_core_gen Rat stops t = c64_zero.
+Proof. exact AtR.at_negative. Qed.
+Print Assumptions at_negative.
+
+Theorem interp_at_stops : forall o0 o1 c0 c1, o0 < o1 -> chan16 c0 -> chan16 c1 ->
+  interpR o0 o1 o0 c0 c1 = c64_of c0 /\ interpR o0 o1 o1 c0 c1 = c64_of c1.
+Proof. exact AtR.interp_at_stops. Qed.
+Print Assumptions interp_at_stops.
+
+Theorem interp_premultiplied : forall o0 o1 t c0 c1, o0 < o1 -> o0 <= t <= o1 -> chan16 c0 -> chan16 c1 ->
+  valid_premul c0 = true -> valid_premul c1 = true ->
+  let c := interpR o0 o1 t c0 c1 in (c_r c <= c_a c /\ c_g c <= c_a c /\ c_b c <= c_a c)%Z.
+Proof. exact AtR.interp_premultiplied. Qed.
+Print Assumptions interp_premultiplied.
 
 (* the float64 instance at the odd integer where the repaired defect lived *)
 Example ex_reflect3 : clamp 2 (SF.of_Z SF.F64 3) = SF.of_Z SF.F64 1.
